@@ -301,6 +301,35 @@ class InitAxis(Interp):
         self.extra_programs = {'init_axis_term': self.term_prog}
 
 
+class BMag(Interp):
+    """util.B_mag: spline evaluations are oracles (inputs nu_at_phi, B20_at_phi); the splines themselves are opaque"""
+    def e_Call(self, e):
+        import ast
+        fn = ast.unparse(e.func)
+        if fn == 'self.nu_spline':
+            self.inputs['nu_at_phi'] = 's'
+            return var('nu_at_phi', 's')
+        if fn == 'self.B20_spline':
+            self.inputs['B20_at_phi'] = 's'
+            return var('B20_at_phi', 's')
+        if fn == 'spline':
+            self.facts = getattr(self, 'facts', {})
+            self.facts['boozer_spline'] = ast.unparse(e)
+            return Opaque('spline')
+        return Interp.e_Call(self, e)
+
+    def bind_value(self, name, v, is_attr):
+        if isinstance(v, Opaque):
+            return v
+        return Interp.bind_value(self, name, v, is_attr)
+
+    def finish(self):
+        r = self.returned
+        if isinstance(r, E):
+            self.emit('s.ret', r)
+            self.outputs.append('ret')
+
+
 class Jac(Interp):
     """_jacobian: the returned matrix is  D/dvarphi + diag(d) with column 0 replaced by c.
     Emitted as the Jacobian-vector product  ret = J @ h  for a symbolic direction h."""
@@ -389,6 +418,11 @@ def programs(kinds):
     P.append(('qsc/calculate_r3.py', 'calculate_r3', 'hN', HN, {}, Interp))
     symc = 'self.sigma0 == 0 and np.max(np.abs(self.rs)) == 0 and (np.max(np.abs(self.zc)) == 0)'
     P.append(('qsc/calculate_r3.py', 'calculate_shear', 'sym', {symc: True}, {'B31c': var('B31c', 's')}, Shear))
+    bm = {'r': var('r', 's'), 'theta': var('theta', 's'), 'phi': var('phi_arg', 's')}
+    for ordn, od in (('r1', {"self.order != 'r1'": False}), ('r2', {"self.order != 'r1'": True})):
+        for bt in (False, True):
+            d = dict(od); d['Boozer_toroidal == False'] = (not bt)
+            P.append(('qsc/util.py', 'B_mag', '%s_%s' % (ordn, 'boozer' if bt else 'cyl'), d, dict(bm, Boozer_toroidal=bt), BMag))
     rt = {'r': var('r', 's'), 'theta': var('theta', 's')}
     P.append(('qsc/grad_B_tensor.py', 'Bfield_cylindrical', 'r', {'r == 0': False}, dict(rt), WithReturn))
     P.append(('qsc/grad_B_tensor.py', 'Bfield_cylindrical', 'r0', {'r == 0': True}, dict(rt), WithReturn))
@@ -405,16 +439,24 @@ def main():
     ap.add_argument('--out', default=os.path.join(os.path.dirname(HERE), 'coq', 'gen'))
     a = ap.parse_args()
     os.makedirs(a.out, exist_ok=True)
-    for f in os.listdir(a.out):
-        if f.endswith('.v') or f.endswith('.json'):
-            os.remove(os.path.join(a.out, f))
+    written = set()
+
+    def put(name, text):
+        """write only when the content changed (keeps build stamps valid, and never leaves the directory half-empty)"""
+        path = os.path.join(a.out, name)
+        written.add(name)
+        if os.path.exists(path) and open(path).read() == text:
+            return
+        tmp = path + '.tmp%d' % os.getpid()
+        open(tmp, 'w').write(text)
+        os.replace(tmp, path)
     manifest = {'repo': a.repo, 'programs': {}, 'errors': []}
     try:
         kinds = live_kinds(a.repo)
     except Exception as ex:
         print('TRANSLATE-ERROR live object construction failed: %r' % (ex,))
         manifest['errors'].append('live object: %r' % (ex,))
-        json.dump(manifest, open(os.path.join(a.out, 'gen_manifest.json'), 'w'), indent=1)
+        put('gen_manifest.json', json.dumps(manifest, indent=1))
         return 2
     kinds['order'] = 'strvar'
     manifest['kinds'] = kinds
@@ -459,13 +501,16 @@ def main():
         }
     for fn, items in byfile.items():
         mod = 'G_' + fn
-        with open(os.path.join(a.out, mod + '.v'), 'w') as f:
-            f.write('(* GENERATED by tools/gen.py from %s -- do not edit *)\n' % a.repo)
-            f.write('From Coq Require Import String List QArith.\nFrom QSC Require Import Expr.\nImport ListNotations.\nOpen Scope string_scope.\n\n')
-            for pname, it in items:
-                f.write(coq_prog(pname, it.prog))
-                f.write('\n')
-    json.dump(manifest, open(os.path.join(a.out, 'gen_manifest.json'), 'w'), indent=1)
+        txt = '(* GENERATED by tools/gen.py from the repository working tree -- do not edit *)\n'
+        txt += 'From Coq Require Import String List QArith.\nFrom QSC Require Import Expr.\nImport ListNotations.\nOpen Scope string_scope.\n\n'
+        for pname, it in items:
+            txt += coq_prog(pname, it.prog) + '\n'
+        put(mod + '.v', txt)
+    put('gen_manifest.json', json.dumps(manifest, indent=1))
+    own = ('G_effects.v', 'G_obj.v', 'effects_manifest.json', 'obj_manifest.json')   # written by gen_eff.py / gen_obj.py
+    for f in os.listdir(a.out):
+        if (f.startswith('G_') and f.endswith('.v') or f == 'gen_manifest.json') and f not in written and f not in own:
+            os.remove(os.path.join(a.out, f))
     print('gen: %d programs, %d errors' % (len(manifest['programs']), len(manifest['errors'])))
     return 2 if manifest['errors'] else 0
 
